@@ -465,6 +465,11 @@ def check(case, obs):
     import matplotlib.pyplot as plt
     rec = recipes()
     name = case['callable']
+    if name == '__cross__':
+        for tag, msg, c in run_job(('cross', 0))['failures']:
+            obs.fail(tag, msg)
+        obs.claims['order_free'] += 1
+        return
     if name in ('__pair__', '__views__'):          # replay of a failure found by the exhaustive part
         Q = queries()
         jobs = [('views', 0)] if name == '__views__' else [('pairs', [n for n, _ in Q].index(case['q1']))]
@@ -578,7 +583,7 @@ def queries():
 
 
 def exhaustive_jobs(tier):
-    return [('pairs', i) for i in range(len(queries()))] + [('views', 0)]
+    return [('pairs', i) for i in range(len(queries()))] + [('views', 0), ('cross', 0)]
 
 
 def _answer(q, d):
@@ -626,6 +631,19 @@ def run_job(job):
                                  dict(callable='__pair__', q1=n1, q2=n2, variant=0, seed=12345)))
         return dict(evaluations=ev, nontrivial=ev, failures=failures, labels={'query_pairs': ev}, claims=claims,
                     samples=[dict(pair=[n1, Q[(i + 7) % len(Q)][0]])] if i == 0 else [], complete=True)
+    if kind == 'cross':
+        # nothing leaks from one object to another: q(B), q(A), q(B') with B' a fresh equal of B gives q(B') == q(B)
+        for n1, q in Q:
+            for kb, ka in (('rfi', 'int'), ('int', 'float'), ('float', 'rfi')):
+                b1 = _answer(q, ctx.sample(kb))
+                _answer(q, ctx.sample(ka))
+                b2 = _answer(q, ctx.sample(kb))
+                ev += 1
+                claims['order_free'] = claims.get('order_free', 0) + 1
+                if b1 != b2 and len(failures) < 10:
+                    failures.append(('order_free', 'answer of %s on a %s sample changes after the same query on a %s sample' % (n1, kb, ka),
+                                     dict(callable='__cross__', q1=n1, q2=n1, variant=0, seed=12345)))
+        return dict(evaluations=ev, nontrivial=ev, failures=failures, labels={'cross_object': ev}, claims=claims, samples=[], complete=True)
     # views / slices / copies: share at most the event buffer, never metadata
     obs = Obs()
     for nm, mk, view in (('view()', lambda d: d.view(), True), ('slice rows', lambda d: d[3:20], True),
